@@ -80,6 +80,20 @@ func augmentTransitive(p *idl.Program, rng *rand.Rand) {
 	p.Files = append([]*idl.File{deep, mid}, p.Files...)
 	plantSameNameParents(p)
 	plantDiamond(p)
+	plantPrefixes(p)
+}
+
+// plantPrefixes gives the root scopes whose prefix spells a variable's name
+// in a literal segment too (equal to it, or containing it).
+func plantPrefixes(p *idl.Program) {
+	root := p.Root()
+	root.Ext = ".frugal"
+	for _, sc := range [][2]string{
+		{"ZqUserEvents", "user.{user}.events"}, {"ZqTenant", "v1.tenant.{tenant}"}, {"ZqRegion", "{region}.region.stream"},
+		{"ZqOrders", "orders.{order}"}, {"ZqFeed", "data.{at}.feed"},
+	} {
+		root.Decls = append(root.Decls, &idl.Decl{Scope: &idl.Scope{Name: sc[0], Prefix: sc[1], Ops: []*idl.Operation{{Name: "ZqSent", Type: idl.T("string")}}}})
+	}
 }
 
 // plantSameNameParents gives the root three services that are all called
@@ -165,6 +179,8 @@ func transitiveOp(e *edit) bool {
 		return strings.Contains(e.Site, "service Zq")
 	case "drop-include":
 		return true
+	case "change-prefix", "rename-prefix-variable":
+		return strings.Contains(e.Site, "scope Zq")
 	}
 	// the whole catalogue inside the planted shared include
 	if e.File == "zqshared" {
